@@ -31,7 +31,30 @@ MISSED8 = {"C03/2": "lives in what used to be an excluded zone (a worker that re
 MISSED9 = {"C04/2": "a cancel() landing after the task's first step but before its worker's first statement (a yield added at the top of the wrapper) looked, to the harness, exactly like the recorded finding F-EARLY and was steered around; the loop now counts task steps, and only a task that has never stepped counts as the F-EARLY trigger",
            "C18/2": "no C18 run stopped the server while a command was still waiting; 40% of the parked-waiter runs now cancel the serving task before the line that ends the wait (lines sent before the stop must still be answered; the closed state is probed through the public API)",
            "C16/1": "the extended class had no member with an unresolvable forward reference as RETURN annotation (the parser never needs return annotations); added make_report() -> 'Report'"}
-MISSED = MISSED9 if ROUND == 9 else MISSED8 if ROUND == 8 else MISSED7 if ROUND == 7 else MISSED6 if ROUND == 6 else {} if ROUND != 5 else {"C01/1": "the pool generator never assigned pool_size to an empty pool; added the resize_idle step (size assigned while the pool is empty, all C01 oracles continue with the new size)",
+ENV10 = "depends on a process-level setting outside the schedule/input space; now varied: "
+MISSED10 = {"C01/2": ENV10 + "every check also runs every 9th unit in an interpreter started with -O",
+            "C03/2": ENV10 + "every check also runs every 9th unit in an interpreter started with -O",
+            "C06/2": ENV10 + "every check also runs every 9th unit in an interpreter started with -O",
+            "C05/2": ENV10 + "12% of the runs treat the library's own warnings as errors (-W error)",
+            "C12/1": ENV10 + "12% of the runs treat the library's own warnings as errors (-W error)",
+            "C16/1": ENV10 + "the control runs now also enable the library's logger at DEBUG/INFO in a third of the runs (the pool runs already did)",
+            "C02/1": "callbacks always returned None; plain callbacks that hand back a pending future (fire-and-forget) added",
+            "C03/1": "callbacks always returned None; plain callbacks that hand back a pending future (fire-and-forget) added",
+            "C04/1": "workers were plain functions, marked factories or bound methods; a functools.wraps-decorated coroutine function whose wrapper injects an argument added",
+            "C09/2": "the non-coroutine samples lacked a plain function that merely WRAPS a coroutine function (functools.wraps)",
+            "C05/1": "the sized argument container reported its true length; a container whose len() is not the element count added",
+            "C11/2": "needs a group cancelling itself from inside its own argument iterator (directed family OWN-ITER); the family now also runs for C11 (ids dense and ordered there too)",
+            "C12/2": "the TypeError raised by the *args callback now reads like the interpreter's own arity error; being called again is also a C12 violation",
+            "C15/1": "hides in the shadow of recorded finding F-LOCK (lock while an apply spawner waits); C15 now also gets unsteered F-LOCK runs, whose end-of-run pool_size read stays strict",
+            "C15/2": "-inf added to the negative sizes",
+            "C17/1": "dotted paths never named a package attribute that shadows a same-named sub-module; fixture tpsim/ctlpkg added",
+            "C18/1": "no generated line had a long identifier run followed by ':' in a callable position (regex backtracking bait); added, and the watchdog reports the stall",
+            "C18/2": "no client half-closed right after pipelined lines; scripted clients added, a half-closed client must RECEIVE every reply (replies_lost_after_eof)",
+            "C20/1": "every block was entered and left by the same task; a block entered by a helper task and left by the consumer added"}
+NOTCAUGHT10 = {"C10/1": "NOT DETECTED: needs a group that cancels itself from inside its own argument iterator and keeps yielding; C07's quantifier excludes that, the unchanged code itself keeps starting tasks for such a group when no suspension intervenes, so group bookkeeping in that zone is outside what the properties fix (the OWN-ITER family only keeps slot accounting and id density strict there)",
+               "C10/2": "NOT DETECTED: same excluded zone as C10-17 (self-cancellation from the group's own argument iterator, then re-use of the name from inside that iterator)",
+               "C13/1": "NOT DETECTED: needs flush() awaited from inside a task's own callback; on the unchanged code that call never returns (the task would gather itself), so there is no reference behaviour to compare with and the generators do not go there"}
+MISSED = MISSED10 if ROUND == 10 else MISSED9 if ROUND == 9 else MISSED8 if ROUND == 8 else MISSED7 if ROUND == 7 else MISSED6 if ROUND == 6 else {} if ROUND != 5 else {"C01/1": "the pool generator never assigned pool_size to an empty pool; added the resize_idle step (size assigned while the pool is empty, all C01 oracles continue with the new size)",
           "C03/2": "callbacks were always closures; added callbacks that are bound methods of an object nothing else refers to (kinds sm/am/gm)",
           "C04/1": "the injected factory failure was always a FactoryError; the exception type now varies (FactoryError, TypeError, ValueError, KeyError, AttributeError)",
           "C04/2": "payload keyword names were always kw_x; added payload shapes whose keyword names coincide with the library's own parameter names (group_name, func, num, end_callback, self, args, kwargs ...)",
@@ -40,7 +63,7 @@ MISSED = MISSED9 if ROUND == 9 else MISSED8 if ROUND == 8 else MISSED7 if ROUND 
           "C15/2": "the size family only assigned pool_size to busy pools; added the idle-assignment variant (assignment on the empty pool, then work; second phase back to another size) with oracle assigned_limit_in_force",
           "C16/1": "SimNet only had IPv4-style 2-tuple socket names; hosts '::1' / 'fe80::1%eth0' now give 4-tuple peer and socket names",
           "C16/2": "the extended class had no public staticmethod; added slots_for"}
-NOTCAUGHT = {} if ROUND != 5 else {"C11/2": "NOT DETECTED: needs asyncio.eager_task_factory as the loop's task factory; SimLoop always uses its own (lazy) task factory, eager start is a loop configuration the simulator does not offer (DESIGN.md section 9)"}
+NOTCAUGHT = NOTCAUGHT10 if ROUND == 10 else {} if ROUND != 5 else {"C11/2": "NOT DETECTED: needs asyncio.eager_task_factory as the loop's task factory; SimLoop always uses its own (lazy) task factory, eager start is a loop configuration the simulator does not offer (DESIGN.md section 9)"}
 def run(prop, k, outk):
     wt = f"/tmp/wt/{prop}"
     S = tempfile.mkdtemp(prefix="seedchk-")
